@@ -10,7 +10,7 @@ open SST SST.OrderSpec SST.Generated.Order SST.FS SST.DBM
 
 theorem listed_functions_found :
     (["DB.Open", "DB.repairCompactions", "DB.reconstructSSTables", "DB.replayAndSetupWriteAheadLog",
-      "simpledb.isUnfinishedTable", "simpledb.hasEmptyMetadata", "simpledb.removeUnfinishedTable",
+      "simpledb.isUnfinishedTable", "simpledb.removeUnfinishedTable",
       "SSTableManager.reflectCompactionResult", "wal.NewAppender", "wal.setupNextWriter"].all foundFn) = true := by decide +kernel
 
 /-- `Open`: the three recovery phases in this order, each unconditional, before any background goroutine starts.
@@ -70,24 +70,29 @@ theorem tables_loaded_in_name_order :
 
 /-- 2cc0c75: a directory whose metadata file exists and is empty is discarded BEFORE the reader gets to load it; the
 check after a failed load (`isUnfinishedTable`) is the older path for tables whose files are missing.  In the normal
-form the loop body is: the check; then `if hasEmptyMetadata(p) { remove } else { load; if err { isUnfinished?; … remove }
+form the loop body is: the check; then `if <metadata empty> { remove } else { load; if err { isUnfinished?; … remove }
 else { addReader } }` — however the source spells the `continue`s and `return`s.  `pathConds`: everything known when the
-action is reached, i.e. the conditions around it and (as `not:`) the guards passed before it. -/
+action is reached, i.e. the conditions around it and (as `not:`) the guards passed before it.
+The check is the `os.Stat` of `<table directory of this iteration>/meta.pb.bin` (label `hasEmptyMetadataCheck`) and the
+predicate "no error and size 0" over its result — the table is the same whether stat + predicate stand in a private helper
+(`hasEmptyMetadata`, today) or are written out in the loop; likewise the predicate of `isUnfinishedTable` is spelled out. -/
 theorem empty_metadata_checked_before_load :
     let xs := itemsOf "DB.reconstructSSTables"
     let b := loopBody "‹[]string›" xs
+    let emptyMeta := "errNil && io/fs.FileInfo.Size() == 0"
+    let notUnfinished := "!os.IsNotExist(‹error›) && (errNonNil || io/fs.FileInfo.Size() != 0)"
     firstBefore .hasEmptyMetadataCheck .loadTable xs = true ∧
-    -- for EVERY table: the check is the first thing the loop body does
-    firstIdx .hasEmptyMetadataCheck b = some 0 ∧
+    -- for EVERY table: the check is the first thing the loop body does, and it is done once
+    firstIdx .hasEmptyMetadataCheck b = some 0 ∧ count .hasEmptyMetadataCheck xs = 1 ∧
     -- the table is loaded exactly when its metadata is not empty, once, not in an inner loop
-    condsAround .loadTable [] b = [["else: simpledb.hasEmptyMetadata(elem(‹[]string›))"]] ∧ loopsAround .loadTable [] b = [[]] ∧
+    condsAround .loadTable [] b = [["else: " ++ emptyMeta]] ∧ loopsAround .loadTable [] b = [[]] ∧
     -- removed: when the metadata is empty; or when it is not, the load failed, and the table is unfinished (the guard
     -- `!isUnfinishedTable → return err` was passed)
     pathConds .removeUnfinishedTable b =
-      [["simpledb.hasEmptyMetadata(elem(‹[]string›))"],
-       ["not: !simpledb.isUnfinishedTable(elem(‹[]string›))", "errNonNil", "else: simpledb.hasEmptyMetadata(elem(‹[]string›))"]] ∧
+      [[emptyMeta],
+       ["not: " ++ notUnfinished, "errNonNil", "else: " ++ emptyMeta]] ∧
     -- added to the readers: metadata not empty and the load succeeded
-    pathConds .addReader b = [["else: errNonNil", "else: simpledb.hasEmptyMetadata(elem(‹[]string›))"]] ∧
+    pathConds .addReader b = [["else: errNonNil", "else: " ++ emptyMeta]] ∧
     allBefore .loadTable .isUnfinishedTableCheck xs = true ∧ noOther xs = true := by decide +kernel
 
 /-- d2bdde6: an unfinished table is removed index.rio FIRST, then the directory; recovery never calls `RemoveAll` on a
